@@ -364,7 +364,10 @@ class DeduplicateDecorator(AsyncDecorator):
             task = self.fn.asynq(*args, **kwargs)
 
             def callback(task):
-                self.tasks.pop(cache_key, None)
+                # drop the entry only if it still is this task: after dirty() a newer
+                # in-flight task may be registered under the same key
+                if self.tasks.get(cache_key) is task:
+                    del self.tasks[cache_key]
 
             self.tasks[cache_key] = task
             task.on_computed.subscribe(callback)
